@@ -17,7 +17,7 @@ decided. Decided statically are the storage layout and plumbing every write/read
  R6  array handles keep nothing about the data set (shared stateless-handle rule)
 """
 import ast
-from .common import Ctx, describe_path
+from .common import Ctx, describe_path, private_part_of
 from nixsa.px import explore, Config
 from nixsa.px_core import Budget
 from nixsa.model import AnalysisError
@@ -276,7 +276,8 @@ def run(M, rep, tier, only=None):
             continue
         for o in ops:
             if o[0] == "raw" and o[1].split(".")[-1] in ("require_dataset", "create_dataset"):
-                rep.check(R2, "creator " + q.split(":")[-1], q.split(":")[-1] == "H5DataSet.__init__",
+                rep.check(R2, "creator " + q.split(":")[-1], q.split(":")[-1] == "H5DataSet.__init__" or
+                          private_part_of(M, q, {init.qual} if init is not None else set()),
                           "%s creates a dataset itself (%s): the creation invariants of H5DataSet.__init__ do not hold for it" % (q.split(":")[-1], o[1]))
 
     # ---------------------------------------------------------------- R3
